@@ -3,6 +3,7 @@ package sym
 import (
 	"fmt"
 	"go/types"
+	"net"
 	"os"
 	"path/filepath"
 	"strings"
@@ -503,7 +504,31 @@ func registerMisc(t map[string]intrinsic) {
 		return Tuple{Str{}, ex.C.False}, nil
 	}
 	t["(net.IP).String"] = func(ex *Exec, caller *frame, fn *ssa.Function, args []Value) (Value, *goPanic) {
-		return ex.mkStr("<ip>"), nil
+		// concrete address: the real spelling; symbolic address: an opaque
+		// string that is unique per call, so that two different addresses can
+		// never compare equal through their text (the digit formatting of
+		// symbolic octets is not modelled)
+		if sl, ok := args[0].(Slice); ok {
+			if sl.IsNil() || sl.Len == 0 {
+				return ex.mkStr("<nil>"), nil
+			}
+			elems := ex.sliceElems(sl)
+			b := make([]byte, len(elems))
+			conc := true
+			for i, e := range elems {
+				t, ok := e.(*Term)
+				if !ok || !t.IsConst() {
+					conc = false
+					break
+				}
+				b[i] = byte(t.Val)
+			}
+			if conc {
+				return ex.mkStr(net.IP(b).String()), nil
+			}
+		}
+		ex.opaqueIPs++
+		return ex.mkStr(fmt.Sprintf("<ip#%d>", ex.opaqueIPs)), nil
 	}
 	t["github.com/miekg/dns.id"] = func(ex *Exec, caller *frame, fn *ssa.Function, args []Value) (Value, *goPanic) {
 		return ex.fresh("dns.id", 16), nil
